@@ -91,7 +91,7 @@ struct ConcurrentObjectArena {
         pos_(other.pos_.load(std::memory_order_relaxed)),
         allocatedSize_(other.allocatedSize_.load(std::memory_order_relaxed)),
         buffersSize_(other.buffersSize_),
-        buffersPos_(other.buffersPos_) {
+        buffersPos_(other.buffersPos_.load(std::memory_order_relaxed)) {
     static_assert(
         std::is_trivially_copyable<T>::value,
         "ConcurrentObjectArena copy constructor uses memcpy; T must be trivially copyable.");
@@ -240,7 +240,7 @@ struct ConcurrentObjectArena {
    * @return The current number of buffers. Note that buffers can be appended concurrently
    **/
   Index numBuffers() const {
-    return buffersPos_;
+    return buffersPos_.load(std::memory_order_acquire);
   }
 
   /**
@@ -304,7 +304,9 @@ struct ConcurrentObjectArena {
     lhs.buffers_.store(rhs_buffers, std::memory_order_release);
 
     swap(lhs.buffersSize_, rhs.buffersSize_);
-    swap(lhs.buffersPos_, rhs.buffersPos_);
+    const Index lhs_buffersPos = lhs.buffersPos_.load(std::memory_order_relaxed);
+    lhs.buffersPos_.store(rhs.buffersPos_.load(std::memory_order_relaxed), std::memory_order_relaxed);
+    rhs.buffersPos_.store(lhs_buffersPos, std::memory_order_relaxed);
     swap(lhs.deleteLater_, rhs.deleteLater_);
   }
 
@@ -316,8 +318,12 @@ struct ConcurrentObjectArena {
       throw std::bad_alloc();
 #endif // __cpp_exceptions
 
-    if (buffersPos_ < buffersSize_) {
-      buffers_.load(std::memory_order_acquire)[buffersPos_++] = static_cast<T*>(ptr);
+    // buffersPos_ is published (release) only after the table entry it counts has been written, so
+    // that numBuffers() followed by getBuffer() is safe while buffers are appended.
+    const Index pos = buffersPos_.load(std::memory_order_relaxed);
+    if (pos < buffersSize_) {
+      buffers_.load(std::memory_order_acquire)[pos] = static_cast<T*>(ptr);
+      buffersPos_.store(pos + 1, std::memory_order_release);
     } else {
       const Index oldBuffersSize = buffersSize_;
       T** oldBuffers = buffers_.load(std::memory_order_acquire);
@@ -330,8 +336,9 @@ struct ConcurrentObjectArena {
         deleteLater_.push_back(oldBuffers);
       }
 
-      newBuffers[buffersPos_++] = static_cast<T*>(ptr);
+      newBuffers[pos] = static_cast<T*>(ptr);
       buffers_.store(newBuffers, std::memory_order_release);
+      buffersPos_.store(pos + 1, std::memory_order_release);
     }
   }
 
@@ -366,7 +373,9 @@ struct ConcurrentObjectArena {
 
   std::atomic<T**> buffers_;
   Index buffersSize_;
-  Index buffersPos_;
+  // Written only under resizeMutex_ (or while no other thread can use the arena); read concurrently
+  // by numBuffers().
+  std::atomic<Index> buffersPos_;
   std::vector<T**> deleteLater_;
 };
 
